@@ -4,6 +4,8 @@
   gen/BroadwordGen.v  all of src/broadword.rs and src/intrinsics.rs as monadic Gallina
   gen/ConstsGen.v     structural constants of the hand-modelled modules
   gen/SerialGen.v     struct layouts and the three method bodies of every `impl Serializable`
+  gen/SerialImplGen.v the generic `impl Serializable` blocks (integer primitives of common_def!, bool, Option<S>, Vec<S>)
+                      as Gallina over Base/SerialDict.v (tied to Spec/FormatSpec.v by Proofs/SerialImplTie.v)
   gen/MethodsGen.v    the loop-free methods of the core modules as monadic Gallina (tied to the hand models
                       by Proofs/MethodsTie.v)
   gen/LoopsGen.v      functions with loops (BitVector scans, the bit and unary iterators; Rank9SelIndex / Rank9Sel and
@@ -3181,6 +3183,738 @@ def gen_loops(repo):
 
 
 # ---------------------------------------------------------------------------------------------
+# the generic `impl Serializable` blocks of src/serial.rs and src/serial/primitive.rs -> gen/SerialImplGen.v
+#
+# Translation scheme (vocabulary: Base/SerialDict.v; the equalities with Spec/FormatSpec.v are Proofs/SerialImplTie.v):
+#
+#  * Every impl block becomes four definitions `<T>_serialize_into`, `<T>_deserialize_from`, `<T>_size_in_bytes`,
+#    `<T>_size_of` and the dictionary `<T>_dict : serdict Wr Rd <carrier>` that packs them.  `<T>` is the integer type
+#    (the body of `macro_rules! common_def` with `$int` replaced, once per `common_def!(T);`), `bool`, `option`
+#    (impl<S> .. for Option<S>) or `vec` (impl<S> .. for Vec<S>); a missing `size_of` is the provided method of the
+#    trait declaration.  Carriers: unsigned integers N, signed integers Z, bool, `option A`, `list A`; the type parameter
+#    S is a carrier type `A` with its dictionary `dS`.
+#  * `W: Write` / `R: Read` are abstract stream states (`io : io_ops Wr Rd`): a function that takes `writer` (by value
+#    or as `&mut writer`) takes the state and returns the new one next to its Rust result; the only operations are
+#    `writer.write_all(&bytes)?` and `reader.read_exact(&mut buf)?` (buf rebinds to the bytes read; its length is the
+#    request).  A `Result` that is not propagated at once by `?`, returned, or mapped in tail position is outside the
+#    subset.
+#  * Functions returning `Result<_>` live in the monad `rio` (Panic / Err / Ok): `e?` is `<-?`; every `+` / `*` goes
+#    through the checked primitive (`add c`, `mul c`) in Rust's evaluation order, `.unwrap()` through `unwrap`.
+#    `if let Some(x) = o {..} else {..}`, `let v = if b {..} else {..};` and `for x in v {..}` / `for _ in a..b {..}`
+#    are joins / `fold_rio` over the tuple of outer variables they assign (a stream that is mentioned counts as
+#    assigned).  `v.iter().fold(i, |acc, x| ..)` is `fold_res`, `o.map_or(d, |x| ..)` / `o.map_or_else(|| .., |m| ..)`
+#    are matches, `r.map(|x| ..)` on a Result in tail position maps the value.
+#  * `std::mem::size_of::<T>()` is the byte width of T (the files are `#![cfg(target_pointer_width = "64")]`, checked),
+#    `x.to_le_bytes()` / `Self::from_le_bytes(buf)` are `uint_to_le k` / `uint_of_le k` (`sint_..` for signed types),
+#    `[0; k]` is `repeat 0 k`, `b as u8` on a bool is `b2n`, `Vec::with_capacity(n)` is the empty vector (allocation is
+#    not modelled), `vec.push(e)` appends.
+#  * Anything else inside these impls raises ParseError naming the impl and the method (exit status 2).
+# ---------------------------------------------------------------------------------------------
+
+INT_WIDTH = {"u8": 1, "u16": 2, "u32": 4, "u64": 8, "usize": 8, "i8": 1, "i16": 2, "i32": 4, "i64": 8, "isize": 8}
+SI_USIZE = ("int", "usize")
+SI_RESERVED = COQ_RESERVED | set("""io ok err rio rbind self_ dS A Wr Rd repeat rev app nrange fold_rio fold_res io_wr io_rd
+    sd_ser sd_deser sd_size sd_size_of uint_to_le uint_of_le sint_to_le sint_of_le ser deser size val ty Z""".split())
+SI_METHODS = ("serialize_into", "deserialize_from", "size_in_bytes", "size_of")
+SI_SIGS = {"serialize_into": ("Result<usize>", "Write"), "deserialize_from": ("Result<Self>", "Read"),
+           "size_in_bytes": ("usize", None), "size_of": ("Option<usize>", None)}
+
+
+def si_ident(name):
+    if name in SI_RESERVED or re.fullmatch(r"t\d+", name):
+        return name + "_"
+    return name
+
+
+def si_tuple(names):
+    if not names:
+        return "tt"
+    return names[0] if len(names) == 1 else "(" + ", ".join(names) + ")"
+
+
+def si_render(items, final):
+    """items: ("rio", pattern, term) `pat <-? term ;;` | ("res", pattern, term) `pat <- term ;;` | ("let", pattern, term)"""
+    lines = []
+    for kind, pat, term in items:
+        if kind == "let":
+            if pat.startswith("("):
+                pat = "'" + pat
+            lines.append("let %s := %s in" % (pat, term))
+            continue
+        if "\n" in term:
+            term = "(" + term.replace("\n", "\n  ") + ")"
+        if pat.startswith("("):
+            pat = "'" + pat
+        lines.append("%s %s %s ;;" % (pat, "<-?" if kind == "rio" else "<-", term))
+    lines.append(final)
+    return "\n".join(lines)
+
+
+class SerialImplFn:
+    """one method of one generic impl"""
+
+    def __init__(self, gen, owner, self_ty, method, tparam):
+        self.gen, self.owner, self.self_ty, self.method, self.tparam = gen, owner, self_ty, method, tparam
+        self.mode = "rio" if method in ("serialize_into", "deserialize_from") else "res"
+        self.env = {}             # rust variable -> type (insertion order = declaration order)
+        self.stream = None        # the writer / reader parameter
+        self.counter = 0
+
+    # types: ("int", name) ("bool",) ("param", S) ("vec", T) ("opt", T) ("bytes",) ("writer",) ("reader",) ("lit",)
+    def fail(self, msg):
+        raise ParseError("impl Serializable for %s, %s: %s" % (self.owner, self.method, msg))
+
+    def fresh(self):
+        self.counter += 1
+        return "t%d" % self.counter
+
+    def resolve_type(self, name):
+        if name == "Self":
+            return self.self_ty
+        if name in INT_WIDTH:
+            if name not in self.gen.defined:
+                self.fail("%s is used before / without its Serializable impl" % name)
+            return ("int", name)
+        if name == "bool":
+            if "bool" not in self.gen.defined:
+                self.fail("bool is used before / without its Serializable impl")
+            return ("bool",)
+        if self.tparam and name == self.tparam:
+            return ("param", name)
+        self.fail("unsupported type %s" % name)
+
+    def is_usize(self, ty):
+        return ty in (SI_USIZE, ("lit",))
+
+    def fn_of(self, ty, method):
+        """Coq head of `<ty as Serializable>::method` (without the value / stream arguments)"""
+        if ty[0] == "param":
+            return {"serialize_into": "sd_ser dS", "deserialize_from": "sd_deser dS", "size_in_bytes": "sd_size dS",
+                    "size_of": "sd_size_of dS"}[method]
+        if ty[0] == "int":
+            base = ty[1]
+        elif ty[0] == "bool":
+            base = "bool"
+        else:
+            self.fail("%s of a nested %s is not supported" % (method, ty[0]))
+        if base not in self.gen.defined:
+            self.fail("%s is used before / without its Serializable impl" % base)
+        return "%s_%s %s" % (base, method, "io c" if method in ("serialize_into", "deserialize_from") else "c")
+
+    def width(self, ty):
+        if ty[0] == "int":
+            return INT_WIDTH[ty[1]]
+        self.fail("std::mem::size_of of a non-integer type")
+
+    # -- effects ------------------------------------------------------------------------------
+    def bind_res(self, out, term):
+        t = self.fresh()
+        out.append(("res", t, term))
+        return t
+
+    def stream_arg(self, a, want):
+        """`writer` / `&mut writer` passed on: the name of the stream variable"""
+        if a[0] == "refmut":
+            a = a[1]
+        if a[0] != "var" or self.env.get(a[1], (None,))[0] != want:
+            self.fail("the %s argument must be the %s parameter (or `&mut` of it)" % (want, want))
+        return a[1]
+
+    def result_call(self, e, out):
+        """a call whose Rust type is Result<_>: (kind, rio term, value type, stream variable, extra)"""
+        if self.mode != "rio":
+            self.fail("I/O inside a function that does not return a Result")
+        if e[0] == "mcall":
+            recv, name, args = e[1], e[2], e[3]
+            if name == "write_all":
+                if recv[0] != "var" or self.env.get(recv[1], (None,))[0] != "writer" or len(args) != 1 or args[0][0] != "ref":
+                    self.fail("unsupported write_all call")
+                bs, bty = self.expr(args[0][1], out)
+                if bty != ("bytes",):
+                    self.fail("write_all of a non-byte-array")
+                return ("wr", "io_wr io %s %s" % (si_ident(recv[1]), bs), ("unit",), recv[1], None)
+            if name == "read_exact":
+                if recv[0] != "var" or self.env.get(recv[1], (None,))[0] != "reader" or len(args) != 1 \
+                        or args[0][0] != "refmut" or args[0][1][0] != "var" or self.env.get(args[0][1][1]) != ("bytes",):
+                    self.fail("unsupported read_exact call")
+                buf = args[0][1][1]
+                return ("rd", "io_rd io %s (lenN %s)" % (si_ident(recv[1]), si_ident(buf)), ("unit",), recv[1], buf)
+            if name == "serialize_into":
+                if len(args) != 1:
+                    self.fail("serialize_into takes one argument")
+                v, vty = self.expr(recv, out)
+                if vty == ("lit",):
+                    self.fail("serialize_into of an untyped literal")
+                w = self.stream_arg(args[0], "writer")
+                return ("ser", "%s %s %s" % (self.fn_of(vty, "serialize_into"), v, si_ident(w)), SI_USIZE, w, None)
+        if e[0] == "call" and e[1][0] == "path" and len(e[1][1]) == 2 and e[1][1][1] == "deserialize_from":
+            ty = self.resolve_type(e[1][1][0])
+            if len(e[2]) != 1:
+                self.fail("deserialize_from takes one argument")
+            r = self.stream_arg(e[2][0], "reader")
+            return ("deser", "%s %s" % (self.fn_of(ty, "deserialize_from"), si_ident(r)), ty, r, None)
+        return None
+
+    def try_expr(self, inner, out):
+        rc = self.result_call(inner, out)
+        if rc is None:
+            self.fail("`?` on an unsupported expression")
+        kind, term, vty, stream, buf = rc
+        s = si_ident(stream)
+        if kind == "wr":
+            out.append(("rio", s, term))
+            return "tt", ("unit",)
+        if kind == "rd":
+            out.append(("rio", "(%s, %s)" % (si_ident(buf), s), term))
+            return "tt", ("unit",)
+        t = self.fresh()
+        out.append(("rio", "(%s, %s)" % ((s, t) if kind == "ser" else (t, s)), term))
+        return t, vty
+
+    # -- expressions: a pure Coq term and its type; effects are appended to `out` ---------------
+    def expr(self, e, out):
+        k = e[0]
+        if k == "num":
+            return str(e[1]), ("lit",)
+        if k == "var":
+            n = e[1]
+            if n in ("true", "false"):
+                return n, ("bool",)
+            if n == "None":
+                return "None", ("opt", None)
+            if n in self.env:
+                if self.env[n][0] in ("writer", "reader"):
+                    self.fail("the %s is used as a value" % n)
+                return si_ident(n), self.env[n]
+            self.fail("unknown variable %s" % n)
+        if k == "ref" or (k == "un" and e[1] == "*"):
+            return self.expr(e[1] if k == "ref" else e[2], out)
+        if k == "try":
+            return self.try_expr(e[1], out)
+        if k == "cast":
+            v, ty = self.expr(e[1], out)
+            if ty == ("bool",) and e[2] in INT_WIDTH and not e[2].startswith("i"):
+                return "(b2n %s)" % v, ("int", e[2])
+            self.fail("unsupported cast to %s" % e[2])
+        if k == "bin":
+            op = e[1]
+            a, aty = self.expr(e[2], out)
+            b, bty = self.expr(e[3], out)
+            if op in ("+", "*"):
+                if not (self.is_usize(aty) and self.is_usize(bty)):
+                    self.fail("`%s` on operands that are not usize" % op)
+                return self.bind_res(out, "%s c %s %s" % ("add" if op == "+" else "mul", a, b)), SI_USIZE
+            if op in ("==", "!="):
+                if not (aty[0] in ("int", "lit") and bty[0] in ("int", "lit")) or \
+                        (aty[0] == "int" and bty[0] == "int" and aty != bty):
+                    self.fail("comparison of unsupported operands")
+                signed = (aty[0] == "int" and aty[1].startswith("i")) or (bty[0] == "int" and bty[1].startswith("i"))
+                t = ("(Z.eqb %s %s)" if signed else "(N.eqb %s %s)") % (a, b)
+                return (t if op == "==" else "(negb %s)" % t), ("bool",)
+            self.fail("unsupported operator %s" % op)
+        if k == "arrayrep":
+            elem, ety = self.expr(e[1], out)
+            n, nty = self.expr(e[2], out)
+            if ety != ("lit",) or not self.is_usize(nty):
+                self.fail("unsupported array expression")
+            return "(repeat %s (N.to_nat %s))" % (elem, n), ("bytes",)
+        if k == "call":
+            return self.call(e, out)
+        if k == "mcall":
+            return self.mcall(e, out)
+        if k == "if":
+            return self.if_value(e, out)
+        self.fail("unsupported expression %s" % k)
+
+    def call(self, e, out):
+        f, args = e[1], e[2]
+        if f[0] == "tpath" and f[1] == ["std", "mem", "size_of"] and len(f[2]) == 1 and not args:
+            tname = f[2][0]                      # any fixed-width integer type (no Serializable impl is needed here)
+            ty = ("int", tname) if tname in INT_WIDTH else self.resolve_type(tname)
+            return str(self.width(ty)), SI_USIZE
+        if f == ("var", "Some") and len(args) == 1:
+            v, ty = self.expr(args[0], out)
+            return "(Some %s)" % v, ("opt", ty)
+        if f[0] == "path" and len(f[1]) == 2:
+            tname, m = f[1]
+            if m == "size_of" and not args:
+                ty = self.resolve_type(tname)
+                return self.bind_res(out, self.fn_of(ty, "size_of")), ("opt", SI_USIZE)
+            if tname == "Self" and m == "from_le_bytes" and len(args) == 1 and self.self_ty[0] == "int":
+                v, ty = self.expr(args[0], out)
+                if ty != ("bytes",):
+                    self.fail("from_le_bytes of a non-byte-array")
+                sg = "sint" if self.self_ty[1].startswith("i") else "uint"
+                return "(%s_of_le %d %s)" % (sg, self.width(self.self_ty), v), self.self_ty
+            if tname == "Self" and m == "with_capacity" and len(args) == 1 and self.self_ty[0] == "vec":
+                scratch = []
+                _, ty = self.expr(args[0], scratch)
+                if scratch or not self.is_usize(ty):
+                    self.fail("unsupported with_capacity argument")
+                return "[]", self.self_ty
+        if self.result_call(e, []) is not None:
+            self.fail("a Result that is neither propagated by `?` nor returned")
+        self.fail("unsupported call")
+
+    def closure(self, clo, ptys, out_mode_res=True):
+        """(parameter names, body term as a monadic term in the current monad returning the body value, type)"""
+        if clo[0] != "closure" or len(clo[1]) != len(ptys):
+            self.fail("expected a closure with %d parameter(s)" % len(ptys))
+        saved = dict(self.env)
+        for p, ty in zip(clo[1], ptys):
+            if p in self.env:
+                self.fail("closure parameter %s shadows a variable" % p)
+            self.env[p] = ty
+        items = []
+        v, ty = self.expr(clo[2], items)
+        self.env = saved
+        return [si_ident(p) for p in clo[1]], self.finish(items, v), ty
+
+    def finish(self, items, v):
+        """monadic term computing the pure term v after the items (in the current monad)"""
+        if items and items[-1][0] == "res" and items[-1][1] == v and self.mode == "res":
+            return si_render(items[:-1], items[-1][2])
+        return si_render(items, ("Ok %s" if self.mode == "res" else "ok %s") % v)
+
+    def bind_here(self, out, term):
+        t = self.fresh()
+        out.append(("res" if self.mode == "res" else "rio", t, term))
+        return t
+
+    def mcall(self, e, out):
+        recv, name, args = e[1], e[2], e[3]
+        if name in ("write_all", "read_exact", "serialize_into"):
+            self.fail("a Result that is neither propagated by `?` nor returned")
+        v, ty = self.expr(recv, out)
+        if name == "size_in_bytes" and not args:
+            if ty == ("lit",):
+                self.fail("size_in_bytes of an untyped literal")
+            return self.bind_res(out, "%s %s" % (self.fn_of(ty, "size_in_bytes"), v)), SI_USIZE
+        if name == "to_le_bytes" and not args and ty[0] == "int":
+            sg = "sint" if ty[1].startswith("i") else "uint"
+            return "(%s_to_le %d %s)" % (sg, self.width(ty), v), ("bytes",)
+        if name == "len" and not args and ty[0] == "vec":
+            return "(lenN %s)" % v, SI_USIZE
+        if name == "as_ref" and not args and ty[0] == "opt":
+            return v, ty
+        if name == "iter" and not args and ty[0] == "vec":
+            return v, ty
+        if name == "unwrap" and not args and ty[0] == "opt":
+            return self.bind_res(out, "unwrap %s" % v), ty[1]
+        if name == "fold" and len(args) == 2 and ty[0] == "vec":
+            if self.mode != "res":
+                self.fail("fold inside a function returning a Result")
+            init, ity = self.expr(args[0], out)
+            if not self.is_usize(ity):
+                self.fail("fold over a non-usize accumulator")
+            ps, body, bty = self.closure(args[1], [SI_USIZE, ty[1]])
+            if not self.is_usize(bty):
+                self.fail("fold closure does not return usize")
+            term = "fold_res (fun %s %s =>\n%s\n  ) %s %s" % (ps[0], ps[1], indent(body, 4), v, init)
+            return self.bind_res(out, term), SI_USIZE
+        if name == "map_or" and len(args) == 2 and ty[0] == "opt":
+            d, dty = self.expr(args[0], out)
+            ps, body, bty = self.closure(args[1], [ty[1]])
+            if not (self.is_usize(dty) and self.is_usize(bty)):
+                self.fail("map_or with non-usize results")
+            wrap = "Ok %s" if self.mode == "res" else "ok %s"
+            term = "match %s with\n| None => %s\n| Some %s =>\n%s\nend" % (v, wrap % d, ps[0], indent(body, 4))
+            return self.bind_here(out, term), SI_USIZE
+        if name == "map_or_else" and len(args) == 2 and ty[0] == "opt":
+            _, nbody, nty = self.closure(args[0], [])
+            ps, sbody, sty = self.closure(args[1], [ty[1]])
+            if not (self.is_usize(nty) and self.is_usize(sty)):
+                self.fail("map_or_else with non-usize results")
+            term = "match %s with\n| None =>\n%s\n| Some %s =>\n%s\nend" % (v, indent(nbody, 4), ps[0], indent(sbody, 4))
+            return self.bind_here(out, term), SI_USIZE
+        self.fail("unsupported method %s on a value of type %s" % (name, ty[0]))
+
+    # -- joins --------------------------------------------------------------------------------
+    def assigned(self, node):
+        """outer variables a statement / block / expression assigns (a stream that is mentioned counts)"""
+        found = set()
+
+        def visit(n):
+            if isinstance(n, (list, tuple)):
+                if n and isinstance(n, tuple) and isinstance(n[0], str):
+                    if n[0] == "assign" and n[1] in self.env:
+                        found.add(n[1])
+                    if n[0] == "mcall" and n[1][0] == "var" and n[2] == "push" and n[1][1] in self.env:
+                        found.add(n[1][1])
+                    if n[0] == "refmut" and n[1][0] == "var" and n[1][1] in self.env:
+                        found.add(n[1][1])
+                    if n[0] == "var" and self.env.get(n[1], (None,))[0] in ("writer", "reader"):
+                        found.add(n[1])
+                    if n[0] in ("let", "lettuple") and (n[1] in self.env if n[0] == "let" else set(n[1]) & set(self.env)):
+                        self.fail("a nested `let` shadows an outer variable")
+                for x in n:
+                    visit(x)
+        visit(node)
+        return [n for n in self.env if n in found]
+
+    def branch(self, blk, names, with_value):
+        """a block as a monadic term returning (value?, names..)"""
+        if blk[0] != "block":
+            self.fail("expected a block")
+        saved = dict(self.env)
+        items = []
+        self.stmts(blk[1], items)
+        vals = []
+        vty = None
+        if with_value:
+            if blk[2] is None:
+                self.fail("a branch without a value")
+            v, vty = self.expr(blk[2], items)
+            vals.append(v)
+        elif blk[2] is not None:
+            self.stmt(("expr", blk[2]), items)
+        self.env = saved
+        return self.finish(items, si_tuple(vals + [si_ident(n) for n in names])), vty
+
+    def join(self, out, names, term, value=None):
+        pats = ([value] if value else []) + [si_ident(n) for n in names]
+        out.append(("res" if self.mode == "res" else "rio", si_tuple(pats) if pats else "_", term))
+
+    def if_value(self, e, out):
+        """`if cond { .. v1 } else { .. v2 }` as a value (effects in the condition come first)"""
+        cond, cty = self.expr(e[1], out)
+        if cty != ("bool",) or e[3] is None:
+            self.fail("unsupported `if` expression")
+        names = [n for n in self.env if n in set(self.assigned(e[2]) + self.assigned(e[3]))]
+        a, aty = self.branch(e[2], names, True)
+        b, bty = self.branch(e[3], names, True)
+        if aty[0] == "opt" and bty[0] == "opt" and (aty[1] is None or bty[1] is None or aty == bty):
+            ty = aty if aty[1] is not None else bty
+        elif aty == bty:
+            ty = aty
+        else:
+            self.fail("the branches of an `if` have different types")
+        t = self.fresh()
+        self.join(out, names, "if %s then (\n%s\n) else (\n%s\n)" % (cond, indent(a), indent(b)), t)
+        return t, ty
+
+    # -- statements ---------------------------------------------------------------------------
+    def stmts(self, stmts, out):
+        for s in stmts:
+            self.stmt(s, out)
+
+    def stmt(self, s, out):
+        k = s[0]
+        if k == "let":
+            if s[1] == "_":
+                self.fail("`let _ =` discards a value")
+            v, ty = self.expr(s[3], out)
+            if ty[0] == "opt" and ty[1] is None:
+                self.fail("cannot type `None` here")
+            if ty == ("lit",):
+                ty = SI_USIZE
+            if ty == ("unit",):
+                self.fail("`let` of a unit value")
+            self.env[s[1]] = ty
+            if v != si_ident(s[1]):
+                out.append(("let", si_ident(s[1]), v))
+            return
+        if k == "assign":
+            name, op, rhs = s[1], s[2], s[3]
+            if name not in self.env or op != "+" or self.env[name] != SI_USIZE:
+                self.fail("unsupported assignment to %s" % name)
+            v, ty = self.expr(rhs, out)
+            if not self.is_usize(ty):
+                self.fail("`+=` of a non-usize value")
+            out.append(("res", si_ident(name), "add c %s %s" % (si_ident(name), v)))
+            return
+        if k == "expr":
+            e = s[1]
+            if e[0] == "try":
+                v, ty = self.try_expr(e[1], out)
+                if ty != ("unit",):
+                    self.fail("the value of a `?` expression is dropped")
+                return
+            if e[0] == "mcall" and e[2] == "push" and e[1][0] == "var" and self.env.get(e[1][1], (None,))[0] == "vec" \
+                    and len(e[3]) == 1:
+                v, ty = self.expr(e[3][0], out)
+                if ty != self.env[e[1][1]][1]:
+                    self.fail("push of a value of the wrong type")
+                n = si_ident(e[1][1])
+                out.append(("let", n, "%s ++ [%s]" % (n, v)))
+                return
+            if e[0] == "iflet":
+                return self.iflet_stmt(e, out)
+            if e[0] == "for":
+                return self.for_stmt(e, out)
+            self.fail("unsupported statement %s" % e[0])
+        self.fail("unsupported statement %s" % k)
+
+    def iflet_stmt(self, e, out):
+        _, x, scrut, then, els = e
+        v, ty = self.expr(scrut, out)
+        if ty[0] != "opt" or ty[1] is None or x in self.env:
+            self.fail("unsupported `if let`")
+        names = [n for n in self.env if n in set(self.assigned(then) + (self.assigned(els) if els else []))]
+        self.env[x] = ty[1]
+        a, _ = self.branch(then, names, False)
+        del self.env[x]
+        if els is not None:
+            b, _ = self.branch(els, names, False)
+        else:
+            b = self.finish([], si_tuple([si_ident(n) for n in names]))
+        self.join(out, names, "match %s with\n| Some %s =>\n%s\n| None =>\n%s\nend" % (v, si_ident(x), indent(a, 4), indent(b, 4)))
+
+    def for_stmt(self, e, out):
+        _, pat, it, body = e
+        if self.mode != "rio":
+            self.fail("`for` inside a function that does not return a Result")
+        if isinstance(pat, tuple):
+            self.fail("tuple pattern in `for`")
+        if it[0] == "bin" and it[1] == "..":
+            a, aty = self.expr(it[2], out)
+            b, bty = self.expr(it[3], out)
+            if not (self.is_usize(aty) and self.is_usize(bty)):
+                self.fail("range over non-usize bounds")
+            lst, ety = "(nrange %s %s)" % (a, b), SI_USIZE
+        else:
+            lst, lty = self.expr(it, out)
+            if lty[0] != "vec":
+                self.fail("`for` over an unsupported iterator")
+            ety = lty[1]
+        if pat is not None and pat in self.env:
+            self.fail("loop variable %s shadows a variable" % pat)
+        names = self.assigned(body)
+        if pat is not None:
+            self.env[pat] = ety
+        step, _ = self.branch(body, names, False)
+        if pat is not None:
+            del self.env[pat]
+        st = si_tuple([si_ident(n) for n in names])
+        pst = ("'" + st) if st.startswith("(") else st
+        term = "fold_rio (fun %s %s =>\n%s\n  ) %s %s" % (pst, si_ident(pat) if pat else "_", indent(step, 4), lst, st)
+        self.join(out, names, term)
+
+    # -- the function ----------------------------------------------------------------------------
+    def tail(self, e, out):
+        """the value of the function (type Result<_> in rio mode)"""
+        if self.mode == "res":
+            v, ty = self.expr(e, out)
+            want = ("opt", SI_USIZE) if self.method == "size_of" else SI_USIZE
+            if not (ty == want or (want == SI_USIZE and ty == ("lit",)) or (want[0] == "opt" and ty == ("opt", None))
+                    or (want[0] == "opt" and ty[0] == "opt" and self.is_usize(ty[1]))):
+                self.fail("the result has the wrong type")
+            return self.finish(out, v)
+        s = si_ident(self.stream)
+        ser = self.method == "serialize_into"
+        want = SI_USIZE if ser else self.self_ty
+
+        def pack(v):
+            return "ok (%s, %s)" % ((s, v) if ser else (v, s))
+
+        def check(ty):
+            if not (ty == want or (want == SI_USIZE and ty == ("lit",))):
+                self.fail("the result has the wrong type")
+
+        if e[0] == "call" and e[1] == ("var", "Ok") and len(e[2]) == 1:
+            v, ty = self.expr(e[2][0], out)
+            check(ty)
+            return si_render(out, pack(v))
+        if e[0] == "mcall" and e[2] == "map" and len(e[3]) == 1:
+            rc = self.result_call(e[1], out)
+            if rc is None or rc[0] != ("ser" if ser else "deser") or rc[3] != self.stream:
+                self.fail("unsupported Result::map")
+            t = self.fresh()
+            out.append(("rio", "(%s, %s)" % ((s, t) if ser else (t, s)), rc[1]))
+            clo = e[3][0]
+            if clo[0] != "closure" or len(clo[1]) != 1 or clo[1][0] in self.env:
+                self.fail("unsupported closure in Result::map")
+            self.env[clo[1][0]] = rc[2]
+            out.append(("let", si_ident(clo[1][0]), t))
+            v, ty = self.expr(clo[2], out)
+            check(ty)
+            return si_render(out, pack(v))
+        rc = self.result_call(e, out)
+        if rc is not None:
+            if rc[0] != ("ser" if ser else "deser") or rc[3] != self.stream:
+                self.fail("the returned Result is not of this function's kind")
+            check(rc[2])
+            return si_render(out, rc[1])
+        self.fail("unsupported result expression")
+
+    def run(self, params_src, body_src):
+        kind = rp.self_kind(params_src)
+        tps = rp.typed_params(params_src)
+        if self.method == "serialize_into":
+            if kind != "ref" or len(tps) != 1:
+                self.fail("unexpected parameters")
+            self.env["self"] = self.self_ty
+            self.env[tps[0][0]] = ("writer",)
+            self.stream = tps[0][0]
+        elif self.method == "deserialize_from":
+            if kind != "static" or len(tps) != 1:
+                self.fail("unexpected parameters")
+            self.env[tps[0][0]] = ("reader",)
+            self.stream = tps[0][0]
+        elif self.method == "size_in_bytes":
+            if kind != "ref" or tps:
+                self.fail("unexpected parameters")
+            self.env["self"] = self.self_ty
+        else:
+            if kind != "static" or tps:
+                self.fail("unexpected parameters")
+        try:
+            blk = rp.parse_fn_body(body_src)
+        except ParseError as ex:
+            self.fail(str(ex))
+        if blk[2] is None:
+            self.fail("the body has no result expression")
+        out = []
+        self.stmts(blk[1], out)
+        return self.tail(blk[2], out)
+
+
+class SerialImplGen:
+    def __init__(self, repo):
+        self.ser_src = rp.strip_tests(open(os.path.join(repo, "src/serial.rs")).read())
+        self.prim_src = rp.strip_tests(open(os.path.join(repo, "src/serial/primitive.rs")).read())
+        for name, src in (("serial.rs", self.ser_src), ("serial/primitive.rs", self.prim_src)):
+            if not re.search(r'^#!\[cfg\(target_pointer_width\s*=\s*"64"\)\]', src, re.M):
+                raise ParseError("%s is no longer restricted to 64-bit targets (usize = 8 bytes is assumed)" % name)
+        self.defined = set()
+        self.defs = []
+        self.dicts = []
+
+    @staticmethod
+    def carrier(ty):
+        if ty[0] == "int":
+            return "Z" if ty[1].startswith("i") else "N"
+        if ty[0] == "bool":
+            return "bool"
+        if ty[0] == "param":
+            return "A"
+        return "(%s %s)" % ("list" if ty[0] == "vec" else "option", SerialImplGen.carrier(ty[1]))
+
+    def trait_default_size_of(self):
+        m = re.search(r"pub trait Serializable\s*:\s*Sized\s*\{", self.ser_src)
+        if not m:
+            raise ParseError("trait Serializable not found")
+        b0 = m.end() - 1
+        body = strip_line_comments(self.ser_src[b0:rp.find_matching(self.ser_src, b0) + 1])
+        fns = {n: (p, r, b) for n, p, r, b, _ in rp.functions(body)}
+        if set(fns) != {"size_of"}:
+            raise ParseError("trait Serializable: the provided methods are no longer exactly {size_of}")
+        return fns["size_of"]
+
+    def impl(self, owner, coqname, self_ty, tparam, body, default_size_of):
+        fns = {n: (p, r, b) for n, p, r, b, _ in rp.functions(body)}
+        for n in fns:
+            if n not in SI_METHODS:
+                raise ParseError("impl Serializable for %s: unexpected method %s" % (owner, n))
+        if "size_of" not in fns:
+            fns["size_of"] = default_size_of
+        generic = tparam is not None
+        for meth in SI_METHODS:
+            if meth not in fns:
+                raise ParseError("impl Serializable for %s: missing %s" % (owner, meth))
+            params, ret, fbody = fns[meth]
+            want_ret, bound = SI_SIGS[meth]
+            if norm(ret) != want_ret:
+                raise ParseError("impl Serializable for %s, %s: unexpected return type %s" % (owner, meth, norm(ret)))
+            if bound:
+                tp = rp.typed_params(params)
+                if len(tp) != 1 or not re.search(r"fn\s+%s\s*<\s*%s\s*:\s*%s\s*>\s*\(" % (meth, re.escape(tp[0][1]), bound), body):
+                    raise ParseError("impl Serializable for %s, %s: the stream parameter is not a `%s`" % (owner, meth, bound))
+            term = SerialImplFn(self, owner, self_ty, meth, tparam).run(params, fbody)
+            io = meth in ("serialize_into", "deserialize_from")
+            binders = "{Wr Rd%s : Type} " % (" A" if generic else "") if (io or generic) else ""
+            if io:
+                binders += "(io : io_ops Wr Rd) "
+            binders += "(c : cfg)"
+            if generic:
+                binders += " (dS : serdict Wr Rd A)"
+            car = self.carrier(self_ty)
+            if meth == "serialize_into":
+                sig = "%s (self : %s) (%s : Wr) : rio (Wr * N)" % (binders, car, si_ident(rp.typed_params(params)[0][0]))
+            elif meth == "deserialize_from":
+                sig = "%s (%s : Rd) : rio (%s * Rd)" % (binders, si_ident(rp.typed_params(params)[0][0]), car)
+            elif meth == "size_in_bytes":
+                sig = "%s (self : %s) : res N" % (binders, car)
+            else:
+                sig = "%s : res (option N)" % binders
+            self.defs.append("Definition %s_%s %s :=\n%s." % (coqname, meth, sig, indent(term)))
+        ds = " dS" if generic else ""
+        self.defs.append(
+            "Definition %s_dict {Wr Rd%s : Type} (io : io_ops Wr Rd) (c : cfg)%s : serdict Wr Rd %s :=\n"
+            "  {| sd_ser := %s_serialize_into io c%s; sd_deser := %s_deserialize_from io c%s;\n"
+            "     sd_size := %s_size_in_bytes c%s; sd_size_of := %s_size_of c%s |}."
+            % (coqname, " A" if generic else "", " (dS : serdict Wr Rd A)" if generic else "", self.carrier(self_ty),
+               coqname, ds, coqname, ds, coqname, ds, coqname, ds))
+        self.defined.add(coqname)
+        self.dicts.append(coqname)
+
+    def run(self):
+        default_size_of = self.trait_default_size_of()
+        # primitives: the macro body, once per invocation
+        prim = strip_line_comments(self.prim_src)
+        m = re.search(r"macro_rules!\s*common_def\s*\{\s*\(\s*\$([a-z]+)\s*:\s*ident\s*\)\s*=>\s*\{", prim)
+        if not m:
+            raise ParseError("macro common_def not found (or no longer of the form `($int:ident) => {..}`)")
+        var = m.group(1)
+        b0 = m.end() - 1
+        b1 = rp.find_matching(prim, b0)
+        mbody = prim[b0 + 1:b1]
+        rest = prim[:m.start()] + prim[rp.find_matching(prim, prim.index("{", m.start())) + 1:]
+        invs = re.findall(r"\bcommon_def!\s*\(\s*(\w+)\s*\)\s*;", rest)
+        if len(invs) != len(set(invs)):
+            raise ParseError("common_def! invoked twice for one type")
+        for t in invs:
+            if t not in INT_WIDTH:
+                raise ParseError("common_def!(%s): not a fixed-width integer type" % t)
+            src = re.sub(r"\$%s\b" % var, t, mbody)
+            if "$" in src:
+                raise ParseError("macro common_def: unsupported macro syntax")
+            blocks = rp.impl_blocks_any(src)
+            if len(blocks) != 1 or norm(blocks[0][3]) != "impl Serializable for %s" % t:
+                raise ParseError("macro common_def no longer expands to one `impl Serializable for $%s`" % var)
+            self.impl(t, t, ("int", t), None, blocks[0][2], default_size_of)
+        # bool
+        others = rp.impl_blocks_any(rest)
+        if [norm(b[3]) for b in others] != ["impl Serializable for bool"]:
+            raise ParseError("serial/primitive.rs: expected exactly one impl outside the macro (Serializable for bool)")
+        self.impl("bool", "bool", ("bool",), None, others[0][2], default_size_of)
+        # Option<S>, Vec<S>
+        ser = strip_line_comments(self.ser_src)
+        blocks = rp.impl_blocks_any(ser)
+        if [(b[0], b[1]) for b in blocks] != [("Serializable", "Option"), ("Serializable", "Vec")]:
+            raise ParseError("serial.rs: expected exactly the impls of Serializable for Option<S> and Vec<S>")
+        for trait, tname, body, header in blocks:
+            hm = re.fullmatch(r"impl\s*<\s*([A-Z])\s*>\s*Serializable\s+for\s+%s\s*<\s*([A-Z])\s*>\s*where\s+([A-Z])\s*:\s*Serializable\s*,?"
+                              % tname, norm(header))
+            if not hm or len({hm.group(1), hm.group(2), hm.group(3)}) != 1:
+                raise ParseError("impl Serializable for %s: unexpected header %r" % (tname, norm(header)))
+            tp = hm.group(1)
+            kind = "opt" if tname == "Option" else "vec"
+            self.impl("%s<%s>" % (tname, tp), "option" if kind == "opt" else "vec", (kind, ("param", tp)), tp, body,
+                      default_size_of)
+        return self.defs
+
+
+SERIALIMPL_HEADER = """(* GENERATED by tools/translate.py from the generic `impl Serializable` blocks of src/serial.rs (Option<S>, Vec<S>)
+   and src/serial/primitive.rs (macro common_def! once per integer type, bool) -- do not edit.
+   Vocabulary: Base/SerialDict.v.  Proofs/SerialImplTie.v proves that these definitions, instantiated along any
+   FormatSpec.ty, compute FormatSpec.ser / deser / size / fixed_size. *)
+From Sucds Require Import Base.Res Base.Loops Spec.FormatSpec Base.SerialDict.
+Open Scope N_scope.
+"""
+
+
+def gen_serialimpl(repo):
+    g = SerialImplGen(repo)
+    try:
+        defs = g.run()
+    except (TypeError, AttributeError) as ex:        # a shape of syntax tree the walker does not expect
+        raise ParseError("generic Serializable impls: unsupported syntax (%s)" % ex)
+    tail = "(* dictionaries: %s *)" % ", ".join(d + "_dict" for d in g.dicts)
+    return SERIALIMPL_HEADER + "\n" + "\n\n".join(defs) + "\n\n" + tail + "\n"
+
+
+# ---------------------------------------------------------------------------------------------
 # fingerprints
 # ---------------------------------------------------------------------------------------------
 
@@ -3220,10 +3954,11 @@ def main():
     repo = os.environ.get("VERIF_REPO", "/repo")
     here = os.path.dirname(os.path.dirname(os.path.abspath(__file__)))
     outdir = os.path.join(os.environ.get("VERIF_COQ_DIR") or os.path.join(here, "coq"), "gen")
-    which = sys.argv[1:] or ["broadword", "consts", "serial", "methods", "loops", "fingerprints"]
+    which = sys.argv[1:] or ["broadword", "consts", "serial", "serialimpl", "methods", "loops", "fingerprints"]
     status = 0
     gens = {"broadword": ("BroadwordGen.v", gen_broadword), "consts": ("ConstsGen.v", gen_consts),
-            "serial": ("SerialGen.v", gen_serial), "methods": ("MethodsGen.v", gen_methods),
+            "serial": ("SerialGen.v", gen_serial), "serialimpl": ("SerialImplGen.v", gen_serialimpl),
+            "methods": ("MethodsGen.v", gen_methods),
             "loops": ("LoopsGen.v", gen_loops),
             "fingerprints": ("fingerprints.json", gen_fingerprints)}
     for w in which:
